@@ -34,7 +34,7 @@ def run_case(case):
     if harness:
         raise HarnessError('thread exception in cache harness: %r' % harness)
     # "never ... delays any other caller beyond a recomputation": the stall accounting of C05 applies here too
-    viol = O.c06(case, hist) + [v for v in O.c01(case, hist) if v['kind'] == 'wrong-value'] + died \
+    viol = O.c06(case, hist) + O.value_provenance(case, hist) + died \
         + [v for v in O.c05(case, hist) if v['kind'] == 'stall']
     cl = G.structure(case, hist)
     nt = ('inv-failed' in cl or 'inv-cancelled' in cl or 'caller-cancelled' in cl or 'left-pending' in cl) \
